@@ -212,11 +212,11 @@ Lemma repair_index_prefix u esF X :
   /\ t_data (repair_index u) = t_data u /\ t_open (repair_index u) = t_open u.
 Proof.
   intros Hne Hwf Hok Hb HX Hflush Hver.
+  unfold repair_index.
+  rewrite Hb. rewrite entries_of_enc_app by exact Hwf.
   set (P := concat (map enc_entry esF)) in *.
   assert (HP : length P = (6 * length esF)%nat) by apply concat_enc_length.
   assert (Hlen : (0 < length esF)%nat) by (destruct esF; [congruence | cbn; lia]).
-  unfold repair_index.
-  rewrite Hb. unfold P at 1. rewrite entries_of_enc_app by exact Hwf. fold P.
   (* the table after the checkIndex step: index bytes P ++ X' *)
   assert (Hstep : exists X',
     let t1 := match check_index (esF ++ entries_of X) with
@@ -262,3 +262,146 @@ Proof.
     rewrite firstn_app_le by lia. rewrite Nat.sub_diag. cbn [firstn]. rewrite app_nil_r.
     repeat split; assumption.
 Qed.
+
+(* newTable up to and including repairIndex, on an index file that starts with the
+   encoding of [esF] (valid, covering exactly the flush offset of the metadata
+   record found on disk) followed by arbitrary bytes [G] *)
+Lemma open_repair_index_prefix idxf data m esF G :
+  esF <> [] -> forallb entry_wf esF = true -> check_index esF = None ->
+  fbytes idxf = concat (map enc_entry esF) ++ G ->
+  mflush m = 6 * N.of_nat (length esF) -> mver m = 2 ->
+  let u := open_repair_index idxf data (Some m) in
+  fbytes (t_index u) = concat (map enc_entry esF)
+  /\ t_mcur u = mkMeta 2 (mvtail m) (mflush m) /\ t_msyn u = mkMeta 2 (mvtail m) (mflush m)
+  /\ t_data u = data /\ t_open u = [].
+Proof.
+  intros Hne Hwf Hok Hb Hflush Hver u. subst u. unfold open_repair_index.
+  set (P := concat (map enc_entry esF)) in *.
+  assert (HP : length P = (6 * length esF)%nat) by apply concat_enc_length.
+  assert (Hlen : (0 < length esF)%nat) by (destruct esF; [congruence | cbn; lia]).
+  assert (Hsz : fsize idxf = N.of_nat (length P + length G)).
+  { unfold fsize, flen. rewrite Hb, app_length. reflexivity. }
+  cbv zeta. rewrite Hsz.
+  replace (N.of_nat (length P + length G) =? 0) with false by (symmetry; apply N.eqb_neq; lia).
+  match goal with |- context [repair_index ?t2] => set (u2 := t2) end.
+  assert (H2 : exists X, fbytes (t_index u2) = P ++ X /\ (length X mod 6 = 0)%nat
+            /\ t_mcur u2 = mkMeta 2 (mvtail m) (mflush m) /\ t_msyn u2 = mkMeta 2 (mvtail m) (mflush m)
+            /\ t_data u2 = data /\ t_open u2 = [] /\ t_ver u2 = 2).
+  { subst u2. destruct (N.eqb_spec (N.of_nat (length P + length G) mod 6) 0) as [E|E].
+    - exists G. cbn [w_index t_index t_mcur t_msyn t_data t_open t_ver fbytes].
+      repeat split; try assumption; try reflexivity. lia.
+    - set (ov := N.of_nat (length P + length G) mod 6) in *.
+      exists (firstn (N.to_nat (N.of_nat (length P + length G) - ov) - length P) G).
+      cbn [w_index t_index t_mcur t_msyn t_data t_open t_ver]. unfold f_trunc. cbn [fbytes].
+      unfold flen. rewrite Hb, app_length.
+      assert (Hov : ov < 6) by (subst ov; apply N.mod_lt; lia).
+      assert (Hle : (N.to_nat (N.of_nat (length P + length G) - ov) <= length P + length G)%nat) by lia.
+      assert (Hge : (length P <= N.to_nat (N.of_nat (length P + length G) - ov))%nat).
+      { subst ov. lia. }
+      replace (N.to_nat (N.of_nat (length P + length G) - ov) - (length P + length G))%nat with 0%nat by lia.
+      cbn [repeat]. rewrite app_nil_r. rewrite firstn_app_le by exact Hge.
+      repeat split; try assumption; try reflexivity.
+      rewrite firstn_length. rewrite Nat.min_l by lia. subst ov. lia. }
+  destruct H2 as [X [Hb2 [HX [Hm2 [Hs2 [Hd2 [Ho2 Hv2]]]]]]].
+  destruct (repair_index_prefix u2 esF X Hne Hwf Hok Hb2 HX) as [R1 [R2 [R3 [R4 R5]]]].
+  - rewrite Hm2. cbn. exact Hflush.
+  - exact Hv2.
+  - rewrite R1, R2, R3, R4, R5. repeat split; assumption.
+Qed.
+
+(* what inv_b gives about the index *)
+Lemma inv_index t :
+  inv_b t = true ->
+  exists es,
+    fbytes (t_index t) = concat (map enc_entry es) /\ es <> [] /\
+    forallb entry_wf es = true /\ check_index es = None /\
+    mflush (t_mcur t) mod 6 = 0 /\ 6 <= mflush (t_mcur t) /\
+    mflush (t_mcur t) <= N.of_nat (fdur (t_index t)) /\ (fdur (t_index t) <= flen (t_index t))%nat /\
+    mflush (t_msyn t) = mflush (t_mcur t) /\ mver (t_mcur t) = 2 /\ mver (t_msyn t) = 2.
+Proof.
+  unfold inv_b. intros H.
+  destruct (entries_of (fbytes (t_index t))) as [|h rest] eqn:E; [discriminate|].
+  repeat (apply andb_prop in H; destruct H as [H ?]).
+  exists (h :: rest).
+  repeat match goal with
+         | H : _ && _ = true |- _ => apply andb_prop in H; destruct H
+         end.
+  repeat split.
+  - apply bytes_eqb_eq. assumption.
+  - discriminate.
+  - assumption.
+  - destruct (check_index (h :: rest)); [discriminate|reflexivity].
+  - apply N.eqb_eq. assumption.
+  - apply N.leb_le. assumption.
+  - apply N.leb_le. assumption.
+  - unfold file_wf in *. apply Nat.leb_le. assumption.
+  - apply N.eqb_eq. assumption.
+  - apply N.eqb_eq. assumption.
+  - apply N.eqb_eq. assumption.
+Qed.
+
+(* THE INDEX PART OF CRASH RECOVERY.  For every table state satisfying the executable
+   invariant, every cut of the index file between its durable and its current length,
+   every zero-filled extension, whichever of the two metadata records survived, and any
+   data files: newTable's checkIndex + repairIndex leave exactly the index bytes below the
+   flush offset, and the metadata record as found. *)
+Lemma crash_index_recovers t c p data (cm : bool) :
+  inv_b t = true -> valid_cut (t_index t) c p ->
+  let m := if cm then t_mcur t else t_msyn t in
+  let u := open_repair_index (crash_file (t_index t) c p) data (Some m) in
+  fbytes (t_index u) = firstn (N.to_nat (mflush (t_mcur t))) (fbytes (t_index t))
+  /\ t_mcur u = mkMeta 2 (mvtail m) (mflush (t_mcur t))
+  /\ t_msyn u = mkMeta 2 (mvtail m) (mflush (t_mcur t))
+  /\ t_data u = data.
+Proof.
+  intros Hinv [Hc1 Hc2] m u.
+  destruct (inv_index t Hinv) as [es [Hb [Hne [Hwf [Hok [Hmod [H6 [Hdur [Hfw [Hsyn [Hv1 Hv2]]]]]]]]]]].
+  set (F := mflush (t_mcur t)) in *.
+  set (nF := N.to_nat (F / 6)).
+  assert (HF : F = 6 * N.of_nat nF) by (subst nF; lia).
+  assert (Hlen : flen (t_index t) = (6 * length es)%nat).
+  { unfold flen. rewrite Hb. apply concat_enc_length. }
+  assert (HnF : (1 <= nF <= length es)%nat) by lia.
+  set (esF := firstn nF es).
+  assert (HlF : length esF = nF) by (subst esF; rewrite firstn_length; lia).
+  assert (HneF : esF <> []) by (intros E; rewrite E in HlF; cbn in HlF; lia).
+  assert (HwfF : forallb entry_wf esF = true).
+  { subst esF. rewrite <- (firstn_skipn nF es) in Hwf. rewrite forallb_app in Hwf.
+    apply andb_prop in Hwf. exact (proj1 Hwf). }
+  assert (HokF : check_index esF = None) by (apply check_index_firstn; exact Hok).
+  assert (HPre : firstn (N.to_nat F) (fbytes (t_index t)) = concat (map enc_entry esF)).
+  { rewrite Hb. replace (N.to_nat F) with (6 * nF)%nat by lia. apply firstn_concat_enc. }
+  assert (HmF : mflush m = F) by (subst m; destruct cm; [reflexivity | exact Hsyn]).
+  assert (Hmv : mver m = 2) by (subst m; destruct cm; assumption).
+  (* the crashed file = P ++ G *)
+  assert (HG : exists G, fbytes (crash_file (t_index t) c p) = concat (map enc_entry esF) ++ G).
+  { unfold crash_file, f_synced. cbn [fbytes].
+    exists (firstn (c - N.to_nat F) (skipn (N.to_nat F) (fbytes (t_index t))) ++ repeat 0 p).
+    rewrite <- HPre. rewrite app_assoc. f_equal.
+    rewrite <- (firstn_skipn (N.to_nat F) (fbytes (t_index t))) at 1.
+    rewrite firstn_app_le.
+    - rewrite firstn_length. rewrite Nat.min_l by (unfold flen in *; lia). reflexivity.
+    - rewrite firstn_length. lia. }
+  destruct HG as [G HG].
+  destruct (open_repair_index_prefix _ data m esF G HneF HwfF HokF HG) as [R1 [R2 [R3 [R4 _]]]].
+  - rewrite HmF, HlF. exact HF.
+  - exact Hmv.
+  - subst u. rewrite R1, R2, R3, R4, HmF, HPre. repeat split; reflexivity.
+Qed.
+
+(* ---------- witnesses (evaluated in Properties/C24.v) ---------- *)
+Definition blob4 (i : N) : list N := [i; 1; 2; 3].
+Definition raw_id (x : list N) : list N := x.
+Definition raw_dec (x : list N) : option (list N) := Some x.
+(* append 5; Sync; append 5 (unsynced); truncateTail(8): only the virtual tail is written, without fsync *)
+Definition H_vtail : list op :=
+  [OAppend (map blob4 [0; 1; 2; 3; 4]); OSync; OAppend (map blob4 [5; 6; 7; 8; 9]); OTruncTail 8].
+(* maxFileSize 50: a 60-byte item, an empty item, a 2-byte item, Sync *)
+Definition H_oversized : list op :=
+  [OAppend [repeat 171 60]; OAppend [[]]; OAppend [[1; 2]]; OSync].
+Definition final (maxsz : N) (clamp : bool) (h : list op) : res table :=
+  match init clamp with Ok t0 => Ok (fst (run maxsz raw_id t0 h)) | Err c => Err c end.
+Definition full_cut (t : table) : N -> nat * nat :=
+  fun id => match dget id (t_data t) with Some f => (flen f, O) | None => (O, O) end.
+Definition dur_cut (t : table) : N -> nat * nat :=
+  fun id => match dget id (t_data t) with Some f => (fdur f, O) | None => (O, O) end.
